@@ -128,6 +128,7 @@ def key_tail_check(ctx, p):
 def run(ctx):
     shared.atomic_publication(ctx, '1')
     shared.handover_order(ctx, '2')
+    shared.overlay_slot_addressed_by_log_index(ctx, '10')   # shadowing needs the right slot: the overlay of a table lives at its log_index()
     shared.lookup_sees_one_queue_state(ctx, '9')    # a reader concurrent with the end of an index growth still finds every present key
     shared.deferral_keeps_commit_order(ctx, '2')    # commit order also holds when a tree dereference in the same transaction is postponed
     shared.wal_confinement(ctx, '3')
